@@ -7,7 +7,7 @@
    [parse_obj_st rel f max s c cur]   the same code with the cur_depth counter threaded through
                               enter_obj / leave_obj as in the Rust (the form that is extracted and
                               compared with the implementation); returns (outcome, cur_depth after). *)
-From PV Require Import Model.Obj Proofs.ObjDepth.
+From PV Require Import Model.Obj Proofs.ObjDepth Proofs.ObjTotal.
 
 (* accepted only if the nesting depth does not exceed the levels left *)
 Theorem C16_accept_within : forall rel d s c o a b c',
@@ -52,9 +52,24 @@ Proof.
   constructor.
 Qed.
 
+(* the object parser never panics and never exhausts the model's fuel (no assert/index/unwrap site is
+   reachable); a successful parse consumes at least one byte and stays inside the buffer.  Debug builds need
+   the input below 2 GiB (RawLiteralString's i32 nesting counter); release builds need nothing. *)
+Theorem C16_total : forall rel s b c,
+  (Z.of_nat (len s) < 2147483648)%Z -> c <= len s ->
+  parse_obj rel b s c <> PPanic /\ parse_obj rel b s c <> PFuel /\
+  (forall v c', parse_obj rel b s c = POk v c' -> c < c' /\ c' <= len s).
+Proof. exact parse_obj_total. Qed.
+
+Theorem C16_total_release : forall s b c,
+  c <= len s -> parse_obj true b s c <> PPanic /\ parse_obj true b s c <> PFuel.
+Proof. exact parse_obj_total_release. Qed.
+
 Print Assumptions C16_accept_within.
 Print Assumptions C16_reject_deeper.
 Print Assumptions C16_reject_deep_brackets.
 Print Assumptions C16_depth_balanced.
 Print Assumptions C16_counter_is_budget.
 Print Assumptions C16_no_assert.
+Print Assumptions C16_total.
+Print Assumptions C16_total_release.
